@@ -138,6 +138,7 @@ def run_tool(tool, argv, cwd, fault=None, knobs=None, logname="events.log", coun
     if pid == 0:
         code = 98
         try:
+            os.setpgid(0, 0)  # own process group: whatever the tool spawns (DataLoader workers) can be reaped with it
             code = _child_main(tool, argv, cwd, fault, knobs, logpath, count_deep)
         except BaseException:  # noqa: B902
             try:
@@ -151,6 +152,14 @@ def run_tool(tool, argv, cwd, fault=None, knobs=None, logname="events.log", coun
         finally:
             os._exit(code if isinstance(code, int) else 98)
     _, st = os.waitpid(pid, 0)
+    try:
+        # a hard-killed tool leaves its worker processes behind for a few seconds (they poll for their parent); they
+        # hold input files open, so they are removed with the run that owned them
+        import signal as _signal
+
+        os.killpg(pid, _signal.SIGKILL)
+    except (ProcessLookupError, PermissionError, OSError):
+        pass
     if os.WIFSIGNALED(st):
         ex = -os.WTERMSIG(st)
     else:
